@@ -1,2 +1,2 @@
-(* C15 - all per-opcode correctness lemmas (see ProofsOps1..5). *)
-From VF.C15 Require Export ProofsOpsCommon ProofsOps1 ProofsOps2 ProofsOps3 ProofsOps4 ProofsOps5.
+(* C15 - all per-opcode correctness lemmas (see ProofsOps1..6). *)
+From VF.C15 Require Export ProofsOpsCommon ProofsOps1 ProofsOps2 ProofsOps3 ProofsOps4 ProofsOps5 ProofsOps6.
